@@ -12,7 +12,8 @@
 
   OBLIGATIONS (audited by `check` with `#print axioms`):
     chunk_invariant, records_wellformed, torn_only_after_fault, calm_plan_no_torn, acked_durable, acked_never_lost,
-    failed_batch_rewritten, reuse_recovers, recovery_separator_first, emit_appends_separator
+    failed_batch_rewritten, reuse_recovers, recovery_separator_first, emit_appends_separator,
+    failed_format_contributes_nothing
 -/
 import EmitModel.Lemmas.FileSetCalm
 
@@ -283,6 +284,37 @@ theorem emit_appends_separator (sep buf : List Nat) :
     · unfold finishEvent
       have : ([c].isSuffixOf (p ++ [c])) = true := List.isSuffixOf_iff_suffix.mpr (List.suffix_append _ _)
       simp [this]
+
+/-- **A failed format contributes nothing** (`FileSetInner::emit`, error arm): the buffers handed to the worker for a
+    sequence of events are exactly the finished buffers of the events whose writer returned Ok, in order — an event
+    whose writer failed is dropped whole (counted in `event_format_failed`), whatever partial bytes it had written,
+    and the events after it are unaffected; every buffer sent ends with the separator. -/
+theorem failed_format_contributes_nothing (sep : List Nat) (ws : List Formatted) :
+    (emitAll sep ws).1 =
+        (ws.filterMap fun w => match w with | .ok p => some p | .fail _ => none).map (finishEvent sep) ∧
+      (∀ b ∈ (emitAll sep ws).1, sep <:+ b) ∧
+      (emitAll sep ws).2 + (emitAll sep ws).1.length = ws.length := by
+  refine ⟨?_, ?_, ?_⟩
+  · induction ws with
+    | nil => rfl
+    | cons w ws ih =>
+      simp only [emitAll] at ih ⊢
+      cases w with
+      | ok p => simp only [List.filterMap_cons, emitBuf, List.map_cons, ih]
+      | fail q => simp only [List.filterMap_cons, emitBuf, ih]
+  · intro b hb
+    simp only [emitAll, List.mem_filterMap] at hb
+    obtain ⟨w, _, hw⟩ := hb
+    cases w with
+    | ok p => simp only [emitBuf, Option.some.injEq] at hw; rw [← hw]; exact (emit_appends_separator sep p).1
+    | fail q => simp [emitBuf] at hw
+  · induction ws with
+    | nil => rfl
+    | cons w ws ih =>
+      simp only [emitAll] at ih ⊢
+      cases w with
+      | ok p => simp only [List.filterMap_cons, emitBuf, List.filter_cons, List.length_cons]; simp; omega
+      | fail q => simp only [List.filterMap_cons, emitBuf, List.filter_cons, List.length_cons]; simp; omega
 
 /-! ### the hypotheses are satisfiable -/
 
